@@ -190,6 +190,20 @@ def run_case(spec):
         if cg != cw:
             vs.append(V("filter", "grouping", "grouping after filter is %r, expected %r" % (cg, cw)))
 
+    if got == want:
+        # custom suites that keep at least one test are kept as the objects they were (not rebuilt as something else)
+        def walk(o, acc):
+            acc.add(id(o))
+            if isinstance(o, unittest.TestSuite):
+                for x in o:
+                    walk(x, acc)
+            return acc
+        present = walk(res, set())
+        for oid, node in reg.items():
+            if node["k"] in ("sub", "sorting", "fixture") and any(i in keep for i in leaves(node)) and oid not in present:
+                vs.append(V("filter", "custom-suite-replaced", "a %s suite holding kept tests %r is no longer in the filtered tree (replaced by another object)" % (
+                    node["k"], [i for i in leaves(node) if i in keep])))
+                break
     if t["k"] in ("sub", "sorting", "fixture") and res is not live:
         vs.append(V("filter", "not-in-place", "filter_by_ids of a %s suite returned another object (%r)" % (t["k"], type(res).__name__)))
     # the utilities composed on one tree, as testtools.run composes them (discover sorts, --load-list filters)
@@ -306,6 +320,8 @@ def run_cli(spec):
                 code = e.code
             return out.getvalue(), code, list(RUNLOG)
         out, code, ran = call(["--list"])
+        if code not in (None, 0, False):
+            vs.append(V("cli", "list-exit-status", "--list exited with %r" % (code,)))
         if out.splitlines() != want_leaves or ran:
             vs.append(V("cli", "list", "--list printed %r (ran %r), expected %r" % (out.splitlines(), ran, want_leaves)))
         keep = list(spec["ids"])
